@@ -138,15 +138,26 @@ struct Ctx {
     if (it != st.mism_by_class.end() && it->second >= 5) { ++it->second; ++st.mismatches; return; }
     vf::mismatch(cls, "got=" + got + " want=" + want + " " + inputs());
   }
+  // classes already reported five times from this context are only counted (no string is built any more)
+  std::map<std::pair<const char*, const char*>, long long*> seen5;
+  bool counted_only(const char* obs, const char* regime) {
+    auto it = seen5.find({obs, regime});
+    if (it != seen5.end()) { ++*it->second; ++vf::stats().mismatches; return true; }
+    std::string cls = "C10:" + fam + ":" + obs + ":" + regime + size;
+    auto& m = vf::stats().mism_by_class;
+    auto jt = m.find(cls);
+    if (jt != m.end() && jt->second >= 5) { seen5[{obs, regime}] = &jt->second; ++jt->second; ++vf::stats().mismatches; return true; }
+    return false;
+  }
   template <class G>
   void eq(const char* obs, const char* regime, const G& got, const I& want) {
     ++tot().evals;
     I g = To<I>::of(got);
-    if (!(g == want)) fail(obs, regime, S(g), S(want));
+    if (!(g == want) && !counted_only(obs, regime)) fail(obs, regime, S(g), S(want));
   }
   void eqb(const char* obs, const char* regime, bool got, bool want) {
     ++tot().evals;
-    if (got != want) fail(obs, regime, got ? "true" : "false", want ? "true" : "false");
+    if (got != want && !counted_only(obs, regime)) fail(obs, regime, got ? "true" : "false", want ? "true" : "false");
   }
   void note(const char* obs, const char* regime, const std::string& got, const std::string& want) { fail(obs, regime, got, want); }
 };
